@@ -145,6 +145,7 @@ template <size_t DIM> void s1(vf::Ctx& c, const std::array<int, DIM>& n, int mul
 template <size_t DIM> struct S2 {
   vf::Ctx& c; std::array<int, DIM> n; int depth; std::vector<std::array<int, DIM>> offs; bool writes;
   std::unordered_set<uint64_t> seen; int tag = 1000;
+  std::unique_ptr<G<DIM>> spare;   // a grid with a past of its own: every other explored grid is obtained by assignment over a copy of it instead of copy construction
   uint64_t canon(G<DIM>& g, const Model<DIM>& m, int remaining) {
     uint64_t h = 1469598103934665603ULL + remaining;
     auto off = g.getIndexOffsetAlongAxes();
@@ -158,7 +159,9 @@ template <size_t DIM> struct S2 {
     for (auto& o : offs) {
       for (int w = 0; w < (writes ? 3 : 1); ++w) {
         for (int de = 0; de < 2; ++de) {
-          G<DIM> g2 = g; Model<DIM> m2 = m;
+          if (!spare) { spare.reset(new G<DIM>(ci<DIM>(n))); for (size_t l = 0; l < m.cell.size(); ++l) (*spare)(ci<DIM>(unlin<DIM>(l, n))) = -7; typename G<DIM>::CellIndexesOffset so; for (size_t d = 0; d < DIM; ++d) so[d] = 1; spare->translate(so, -8); }
+          G<DIM> g2 = (ops.size() + w + de) % 2 ? G<DIM>(*spare) : G<DIM>(g); Model<DIM> m2 = m;
+          if ((ops.size() + w + de) % 2) g2 = g;   // copy-assignment over a grid that holds other data at another offset
           if (w == 1) { size_t l = (size_t)(tag % m2.cell.size()); m2.cell[l] = tag; g2(ci<DIM>(unlin<DIM>(l, n))) = tag; ++tag; }
           if (w == 2) for (size_t l = 0; l < m2.cell.size(); ++l) { m2.cell[l] = tag; g2(ci<DIM>(unlin<DIM>(l, n))) = tag; ++tag; }
           int empty = de ? 0 : tag++;
@@ -249,6 +252,7 @@ std::string vf_describe(const std::string& tier) {
                  : "2D sizes 1..4 per axis, 3D 1..3; offsets per axis in [-(n+1),n+1]; BFS to fixpoint over index-offset states, every offset from every state, cells refilled with unique tags");
   o.str("S2", th ? "2D sizes 1..4, 3D 1..3, all sequences of 3 translations, offsets [-(n+1),n+1], writes {none,single,full} before each translation (3D: writes only for <=8 cells), empty value fresh or default"
                  : "2D sizes 1..4 (depth 3 up to 6 cells, else 2), 3D 1..3 depth 2, offsets [-(n+1),n+1], writes {none,single,full} (3D up to 12 cells), empty value fresh or default");
+  o.str("object_forms", "every explored grid is a copy of its predecessor: alternately copy-constructed, and copy-assigned over a grid that holds other data at another offset");
   o.str("first_access", "S1 and the first translation of S2: every cell read (and written) as the first access after the translation, each on its own copy of the grid");
   o.str("model", "window array: new[i] = old[i+k] if inside else the translation's empty value; accumulated offset mod size");
   return o.done();
